@@ -246,6 +246,8 @@ func runC02(p *Prog, r *Report, tier string) {
 	codecAgreement(p, r, "R-RFC.value", "enc")
 	prefixSites(p, r, "R-RFC.prefix")
 
+	// data records: each field at its reported width (buffer sizing / index advance / accumulation: C15's rules, imported)
+	lengthAccounting(p, r, "R-RFC.record-layout")
 	// message assembly
 	checkMsgAssembly(p, r)
 	// UpdateLenInHeader on every path before the send
